@@ -64,7 +64,7 @@ pub fn profile(prop: &str, tier: &str) -> Profile {
     }
     caps.extend_from_slice(&[Cap::N(5), Cap::N(9)]);
     if thorough {
-        caps.extend_from_slice(&[Cap::N(4), Cap::N(6), Cap::N(8), Cap::N(17)]);
+        caps.extend_from_slice(&[Cap::N(4), Cap::N(6), Cap::N(8), Cap::N(17), Cap::N(33), Cap::N(70)]);
     }
     let base = Profile {
         name: "base",
